@@ -733,6 +733,52 @@ func init() {
 		close(release) // the abandoned instance may finish its freeing on the old disk
 		old.WaitIdle()
 	}})
+	// The server is shut down and restarted while the background shrinker is at work: nothing observable changes, the
+	// truncation left half-way is completed by the next request that touches the file, and no block is lost.
+	for _, variant := range []string{"trunc", "remove"} {
+		variant := variant
+		Probes = append(Probes, Probe{"restart-while-shrinking-" + variant, []string{"C10", "C05", "C12"}, 16000, func(p *P) {
+			const B = 4096
+			f := p.Create(p.Root, "f").RFh
+			for i := 0; i < 6; i++ {
+				p.Write(f, i*100*B, 100*B, 2)
+			}
+			g := p.Create(p.Root, "g").RFh
+			p.Write(g, 0, 5000, 2)
+			if variant == "trunc" {
+				p.Trunc(f, B+100)
+			} else {
+				p.Remove(p.Root, "f")
+			}
+			// no WaitIdle: the shrinker thread is (most likely) still freeing
+			old := p.S
+			old.Shutdown()
+			s2, err := Start(old.D, p.Unst)
+			if err != nil {
+				p.T.Emit(map[string]interface{}{"ev": "fatal", "what": err.Error()})
+				return
+			}
+			s2.Sequential = true
+			s2.wtmax, s2.maxfs = old.wtmax, old.maxfs
+			p.S = s2
+			p.T.Emit(Restart{Ev: "restart", Kind: "clean", Dump: DumpAPI(s2.API, "restarted")})
+			p.T.Emit(TakeSnap(p.S, "recovered", true)) // a half-freed inode is legitimate here
+			if variant == "trunc" {
+				p.Write(f, B, 300, 2) // completes the truncation first
+				p.Trunc(f, 8*B)
+				p.Read(f, 0, 8*B)
+			} else {
+				h := p.Create(p.Root, "h").RFh // is handed the half-freed number
+				p.Write(h, 3*B, 100, 2)
+				p.Trunc(h, 8*B)
+				p.Read(h, 0, 8*B)
+			}
+			p.S.WaitIdle()
+			p.T.Emit(TakeSnap(p.S, "run", true))
+			p.Dump()
+			p.Tail()
+		}})
+	}
 	// A SYMLINK whose target needs two blocks when one is free: refused without effect, or stored completely.
 	Probes = append(Probes, Probe{"symlink-target-with-one-block-free", []string{"C09", "C02", "C05"}, 1700, func(p *P) {
 		filler := p.Create(p.Root, "filler").RFh
